@@ -905,6 +905,10 @@ func (e *SpecEnv) call(s *SExpr) SVal {
 		if id := fnx.Args[0]; id.Kind == "ident" {
 			if !e.isBound(id.Name) {
 				if p := e.importedPkg(id.Name); p != nil {
+					if pf, ok := e.u.eng.cs.Pures[fnx.Name]; ok && pf.Pkg == p.Path() {
+						evalArgs()
+						return e.applyPure(pf, args)
+					}
 					if id.Name == "strings" && fnx.Name == "Map" && len(s.Args) == 3 && s.Args[1].Kind == "ident" {
 						sv := e.eval(s.Args[2])
 						e.u.usedPureUF["strings.Map$"+s.Args[1].Name] = true
